@@ -40,9 +40,8 @@ Definition P14 : str := [99;49;52;95]. Definition P15 : str := [99;49;53;95]. De
     model's, matrix.def lists the connection weights in (right, left) order, ids lie inside the
     header's dimensions *)
 Definition nd_scale (nd : numdata) : f64 :=
-  let ws := map (fun s => f64_abs (f64_of_bits (fst (fst s)))) (nd_sets nd) ++ map (fun m => f64_abs (f64_of_bits (snd m))) (nd_matrix nd) in
-  f64_div (f64_of_Z 32767) (fold_left f64_max ws (f64_of_Z 0)).
-Definition nd_cost (sc : f64) (bits : Z) : Z := f64_to_i16 (f64_mul (f64_neg (f64_of_bits bits)) sc).
+  f64_scale (map (fun s => f64_of_bits (fst (fst s))) (nd_sets nd) ++ map (fun m => f64_of_bits (snd m)) (nd_matrix nd)).
+Definition nd_cost (sc : f64) (bits : Z) : Z := f64_cost sc (f64_of_bits bits).
 Fixpoint insert_rl (x : N * N * Z) (l : list (N * N * Z)) : list (N * N * Z) :=
   match l with
   | [] => [x]
